@@ -365,6 +365,11 @@ func buildStoreWorld(afterRollback bool) (w *storeWorld, err error) {
 		version := uint64(vi + 1)
 		for _, n := range ops.set {
 			val := []byte(fmt.Sprintf("v%d-%s", version, n))
+			if (version == 2 && n == "k4") || (version == 3 && (n == "k16" || n == "k3")) {
+				// present with an EMPTY value (what the state machine stores for its committee / delegate index entries):
+				// still a member, provable as one, and not provable absent
+				val = []byte{}
+			}
 			if e := w.st.Set(bytes.Clone(u.keys[u.idx[n]]), val); e != nil {
 				return nil, e
 			}
